@@ -164,6 +164,17 @@ def corpus():
         mk('a', 'iterator', [1], 0, []),
         mk('s', 'aiterable', [1, 2], 1, [], ekind=1),
         mk('a', 'generator', [1, 2], 2, [], ekind=1),
+        # seeded C16-m10: the source itself raises a RuntimeError subclass / NotImplementedError / RecursionError /
+        # RuntimeError / queue.Empty / InvalidStateError: the consumer must get THAT object
+        mk('a', 'iterator', [3, 1], 2, [], ekind=2),
+        mk('a', 'generator', [3], 1, [], ekind=3, sched=['c'] + ['w'] * 10),
+        mk('a', 'iterator', [], 0, [2], ekind=4),
+        mk('a', 'generator', [3, 1], 1, [], ekind=5),
+        mk('s', 'agen', [3, 1], 2, [], ekind=2),
+        mk('s', 'aiter', [3], 1, [1, 0], ekind=3),
+        mk('s', 'aiterable', [3], 0, [], ekind=10),
+        mk('s', 'agen', [3, 1], 1, [], ekind=11, wloop='gv'),
+        mk('a', 'iterable', [2], 1, [], ekind=2),
         # slow producer with the ticker running (loop must not be blocked)
         mk('a', 'iterator', [1, 2], None, [3, 2, 4]),
         mk('a', 'generator', [1, 2], 1, [0, 5]),
@@ -184,11 +195,23 @@ def corpus():
         # empty sources
         mk('a', 'iterator', [], None, []),
         mk('s', 'agen', [], 0, []),
+        mk('s', 'agen', [3], 1, [], ekind=EK_TIMEOUT),          # to_sync_iter keeps the identity of a TimeoutError
+        mk('a', 'iterable', [3], 1, [], ekind=EK_TIMEOUT),      # ... and so does the inline branch
+        # fix F10 (23b50d7): classes that asyncio.wrap_future would re-instantiate must arrive as the same object
+        mk('a', 'iterator', [3], 1, [], ekind=EK_TIMEOUT),
+        mk('a', 'generator', [], 0, [], ekind=EK_TIMEOUT, sched=['c'] + ['w'] * 8),
+        mk('a', 'generator', [3, 1], 2, [0, 2, 0], ekind=14),
+        mk('a', 'iterator', [3], 0, [], ekind=15),
+        mk('s', 'aiter', [3], 1, [], ekind=14),
+        mk('s', 'agen', [], 0, [], ekind=15),
     ]
     return out
 
 
 DUR_PATTERNS_Q = [[], [2, 2, 2, 2, 2], [0, 3, 0, 2, 0]]
+EK_TIMEOUT = 7
+EK_CONVERTED = [7, 14, 15]      # exact TimeoutError, concurrent.futures.CancelledError / InvalidStateError
+EKIND_ROT = [0, 2, 7, 3, 1]
 
 
 def _bases(nmax, durs):
@@ -197,15 +220,18 @@ def _bases(nmax, durs):
     for n in range(0, nmax + 1):
         for fail in [None] + list(range(n + 1)):
             for di, dur in enumerate(durs):
+                # exception class of the failure rotates with the duration pattern: Exception subclass,
+                # RuntimeError subclass, exact TimeoutError, (thorough) NotImplementedError, BaseException-only
+                ek = EKIND_ROT[di % len(EKIND_ROT)] if fail is not None else 0
                 for kind in ASYNC_THREADED:
-                    out.append(mk('a', kind, vals[:n], fail, dur[:n + 1]))
+                    out.append(mk('a', kind, vals[:n], fail, dur[:n + 1], ekind=ek))
                 for ki, kind in enumerate(SYNC_KINDS):
-                    out.append(mk('s', kind, vals[:n], fail, dur[:n + 1],
+                    out.append(mk('s', kind, vals[:n], fail, dur[:n + 1], ekind=ek,
                                   wloop='gv' if (n + ki + di) % 2 else None))
                 if fail is None:
                     out.append(mk('a', 'list', vals[:n], None, []))
                     out.append(mk('a', 'range', list(range(n)), None, []))
-                out.append(mk('a', 'iterable', vals[:n], fail, dur[:n + 1]))
+                out.append(mk('a', 'iterable', vals[:n], fail, dur[:n + 1], ekind=ek))
     return out
 
 
@@ -222,6 +248,19 @@ def gen_exhaustive(tier, seed):
         for s in GN.explore(b, limit=4000):
             out.append(dict(b, sched=s))
     return out
+
+
+def _rand_ekind(rnd):
+    r = rnd.random()
+    if r < 0.4:
+        return 0
+    if r < 0.5:
+        return 1
+    if r < 0.75:
+        return rnd.choice([2, 3, 4, 5])
+    if r < 0.9:
+        return rnd.choice(EK_CONVERTED)
+    return rnd.randrange(6, D.NEKINDS)
 
 
 def _rand_case(rnd, nmax=6):
@@ -241,7 +280,7 @@ def _rand_case(rnd, nmax=6):
         fail = rnd.randint(0, n)
     grid = rnd.choice([[0], [0, 0, 1, 2], [0, 1, 2, 3, 5], [2, 3, 4]])
     dur = [rnd.choice(grid) for _ in range(n + 1)] if kind not in ('list', 'range') else []
-    return mk(fn, kind, xs, fail, dur, ekind=int(rnd.random() < 0.2),
+    return mk(fn, kind, xs, fail, dur, ekind=_rand_ekind(rnd),
               wloop='gv' if fn == 's' and rnd.random() < 0.5 else None,
               rseed=rnd.randrange(1 << 30), stay=rnd.choice([0.0, 0.3, 0.6, 0.85]))
 
@@ -272,7 +311,7 @@ def _pair_case(rnd, nmax=3):
         xs = [rnd.choice([0, 1, 2, 3, 4, 5]) for _ in range(n)]
         fail = rnd.randint(0, n) if rnd.random() < 0.4 else None
         grid = rnd.choice([[0], [0, 0, 1, 2], [0, 2, 4]])
-        subs.append(dict(src=kind, xs=xs, fail=fail, ekind=0, dur=[rnd.choice(grid) for _ in range(n + 1)],
+        subs.append(dict(src=kind, xs=xs, fail=fail, ekind=_rand_ekind(rnd) if fail is not None else 0, dur=[rnd.choice(grid) for _ in range(n + 1)],
                          wloop=None))
     return dict(kind='pair', fn=fn, subs=subs, rseed=rnd.randrange(1 << 30),
                 stay=rnd.choice([0.0, 0.3, 0.6, 0.85]), lines=rnd.random() < 0.25)
@@ -379,7 +418,7 @@ def shrink_candidates(case):
 
 
 def distribution(cases, obs):
-    d = dict(to_async_iter=0, to_sync_iter=0, inline=0, threaded=0, with_failure=0, fail_at_0=0, base_exception=0,
+    d = dict(runtime_error_family=0, other_exception_classes=0, to_async_iter=0, to_sync_iter=0, inline=0, threaded=0, with_failure=0, fail_at_0=0, base_exception=0,
              explicit_schedule=0, random_schedule=0, with_durations=0, worker_loop_gated=0,
              line_level=0, line_decisions=0, decisions=0, consumer_steps=0, worker_steps=0, elements=0, special_elements=0,
              outcome_stop=0, outcome_raised=0, max_len=0, parks_with_ticks=0)
@@ -400,7 +439,9 @@ def distribution(cases, obs):
         d['line_level'] += bool(c.get('lines'))
         d['with_failure'] += c.get('fail') is not None
         d['fail_at_0'] += c.get('fail') == 0
-        d['base_exception'] += bool(c.get('ekind'))
+        d['base_exception'] += c.get('ekind') == 1
+        d['runtime_error_family'] += c.get('fail') is not None and c.get('ekind') in (2, 3, 4, 5)
+        d['other_exception_classes'] += c.get('fail') is not None and (c.get('ekind') or 0) >= 6
         d['explicit_schedule' if c.get('sched') is not None else 'random_schedule'] += 1
         d['with_durations'] += any(c.get('dur') or [])
         d['worker_loop_gated'] += c.get('wloop') == 'gv'
@@ -418,7 +459,9 @@ def distribution(cases, obs):
     return d
 
 
-RULE = ('case = (bridge function, source kind, element identities, failure position or none, exception kind, '
+RULE = ('case = (bridge function, source kind, element identities, failure position or none, exception class of the failure (Exception / BaseException-only / RuntimeError subclass / '
+        'NotImplementedError / RecursionError / RuntimeError / OSError / TimeoutError / KeyError / ValueError / queue.Empty / '
+        'InvalidStateError / AttributeError / TypeError / concurrent.futures.CancelledError / InvalidStateError; the consumer must receive the same object), '
         'virtual duration of every pull, schedule = thread chosen at every gate) run on the real '
         'to_async_iter / to_sync_iter with the producer worker and the consumer as gated threads and a ticker task on '
         'the consuming loop; exhaustive layer: every schedule of the implementation\'s own decision tree for sources of '
